@@ -500,3 +500,40 @@ Proof.
 Qed.
 
 End Class.
+
+(* ================= the list condition of the class, made explicit ================= *)
+(* the collapse of the leading slashes leaves a segment list alone exactly when the list does not start with an
+   empty segment followed by more *)
+Definition strip_stable (P : list (list N)) : bool :=
+  match P with [] :: _ :: _ => false | [] => false | _ => true end.
+
+Lemma strip_f_len P : P <> [] -> (length (strip_f P) <= length P)%nat.
+Proof.
+  induction P as [|s r IH]; intros H; [contradiction|]. cbn [strip_f]. destruct (is_nil s); [|lia].
+  destruct r as [|q r']; [cbn; lia|]. specialize (IH ltac:(discriminate)). cbn [length] in *. lia.
+Qed.
+
+Lemma strip_f_stable P : (strip_f P = P) <-> strip_stable P = true.
+Proof.
+  destruct P as [|s r]; [split; [discriminate | discriminate]|].
+  destruct s as [|x s']; [|split; reflexivity].
+  destruct r as [|q r']; [split; reflexivity|].
+  cbn [strip_stable]. split; [|discriminate]. intros H. exfalso. change (strip_f (q :: r') = [] :: q :: r') in H.
+  pose proof (strip_f_len (q :: r') ltac:(discriminate)) as L. rewrite H in L. cbn [length] in L. lia.
+Qed.
+
+Lemma segs_eqb_refl a : segs_eqb a a = true.
+Proof. induction a as [|x a IH]; [reflexivity|]. cbn [segs_eqb]. rewrite IH, andb_true_r. apply list_eqb_spec. reflexivity. Qed.
+
+Lemma segs_eqb_iff a b : segs_eqb a b = true <-> a = b.
+Proof. split; [apply segs_eqb_eq | intros ->; apply segs_eqb_refl]. Qed.
+
+(* the class condition when the model and the Standard enter the path loop at the same place *)
+Theorem fp_ok_same hh t : fp_ok hh t t = fpath_ok hh t [] [] && strip_stable (fst (spath_f t [] [])).
+Proof.
+  unfold fp_ok. f_equal. set (P := fst (spath_f t [] [])).
+  destruct (strip_stable P) eqn:E.
+  - apply segs_eqb_iff. apply strip_f_stable. exact E.
+  - destruct (segs_eqb (strip_f P) P) eqn:E2; [|reflexivity]. apply segs_eqb_iff in E2. apply strip_f_stable in E2.
+    rewrite E2 in E. discriminate E.
+Qed.
